@@ -107,8 +107,19 @@ func readAll(o ropts, data []byte, dir string) (res []readResult, panicked strin
 			return
 		}
 		defer wf.Close()
+		var kept []*gowarc.Validation
+		defer func() {
+			// a caller that collects the sequence first looks at the findings afterwards
+			for i, v := range kept {
+				if v != nil && i < len(res) && len(*v) != res[i].nf {
+					res[i].nf = len(*v)
+					res[i].clean = res[i].rec && res[i].err == "nil" && res[i].nf == 0
+				}
+			}
+		}()
 		for i := 0; i < 40; i++ {
 			rec, off, v, err := wf.Next()
+			kept = append(kept, v)
 			rr := readResult{off: off, rec: rec != nil, err: classify(err)}
 			if v != nil {
 				rr.nf = len(*v)
@@ -262,6 +273,11 @@ func damagedStream(r *rand.Rand) []byte {
 				fields[j][1] = "00" + fields[j][1]
 			}
 		}
+	}
+	if r.Intn(6) == 0 {
+		// a folded header field; the line before the fold may end in blanks
+		fields = append(fields, [2]string{pick(r, []string{"X-Folded", "WARC-Filename", "Content-Type"}),
+			pick(r, []string{"text/plain; \r\n charset=utf-8", "a\t\r\n\tb \r\n c", "one\r\n two", "x  \r\n  y"})})
 	}
 	rec := serializeRecord("1.1", fields, g.body, pick(r, []string{"\r\n", "\r\n", "\r\n", "\n"}))
 	if r.Intn(4) == 0 {
